@@ -73,7 +73,15 @@ theorem runTrx_E (s : St) (ht : Int) (tx : TxIn) (rcv : Account) :
 
 theorem handleTx_E (s : St) (ht : Int) (tx : TxIn) :
     handleTx (E s) true ht tx = (E (handleTx s true ht tx).1, (handleTx s true ht tx).2) := by
-  unfold handleTx
+  by_cases hl : byteLen tx.to = 20
+  case neg =>
+    unfold handleTx
+    simp only [hl, if_false, validateTrx_badlen hl, E_findAcct]
+    split
+    · rfl
+    · split <;> rfl
+  rw [handleTx_goodlen hl, handleTx_goodlen hl]
+  unfold handleTxOld
   simp only [E_findAcct, findOrNewAcct_E, validateTrx_E]
   split
   · rfl
